@@ -230,6 +230,12 @@ class Machine:
         sym_sys = opts.get('sym_sys', {})
         if 'sctlr' not in set_sys:
             set_sys['sctlr'] = regs.sctlr.value & ~1  # MPU / MMU off unless a unit asks otherwise
+        if cfg['arch'] >= 7:
+            # ARMv7: SCTLR.U reads-as-one (unaligned support is always on): part of the valid-state invariant
+            set_sys['sctlr'] |= 1 << 22
+            if 'sctlr' in sym_sys:
+                sym_sys = dict(sym_sys)
+                sym_sys['sctlr'] &= ~(1 << 22)
         for attr, val in self._sys_items(regs):
             width = WIDE.get(attr.split('[')[0], 32)
             base = set_sys.get(attr, val)
